@@ -146,7 +146,7 @@ func getRespFromCache(msgKey string, backend *cache.Cache[key, *item], lazyCache
 		// Not expired.
 		if now.Before(v.expirationTime) {
 			r := v.resp.Copy()
-			dnsutils.SubtractTTL(r, uint32(now.Sub(v.storedTime).Seconds()))
+			dnsutils.SubtractTTL(r, uint32(now.Sub(v.storedTime)/time.Second))
 			return r, false
 		}
 
